@@ -461,12 +461,12 @@ func (h *History) step(t *rapid.T) {
 		h.emit(t, Op{T: ti, Op: "delete", K: clone(h.storedKey(t, ti, "dp"))})
 	case 3:
 		k, note := h.nearKey(t, ti)
-		h.emit(t, Op{T: ti, Op: "delete", K: k, Note: note})
+		h.emit(t, Op{T: ti, Op: "delete", K: k, Note: note + h.rawProbe(t, ti, k)})
 	case 4:
 		h.emit(t, Op{T: ti, Op: "search", K: clone(h.storedKey(t, ti, "sp"))})
 	case 5:
 		k, note := h.nearKey(t, ti)
-		h.emit(t, Op{T: ti, Op: "search", K: k, Note: note})
+		h.emit(t, Op{T: ti, Op: "search", K: k, Note: note + h.rawProbe(t, ti, k)})
 	case 6:
 		a, na := h.bound(t, ti, nil)
 		b, nb := h.bound(t, ti, a)
@@ -543,6 +543,15 @@ func (h *History) step(t *rapid.T) {
 	}
 }
 
+// rawProbe: on a raw []byte compound tree some absent probes are passed unterminated (they are no
+// keys of the codec, so they are absent whatever they are: partial paths, re-slices of stored keys).
+func (h *History) rawProbe(t *rapid.T, ti int, k []byte) string {
+	if _, raw := h.eng.slots[ti].kind.(*rawCmpKind); raw && len(k) > 0 && bytes.IndexByte(k, 0) < 0 && drawInt(t, 0, 1, "unterm") == 0 {
+		return ",unterminated"
+	}
+	return ""
+}
+
 func (h *History) iterOp(t *rapid.T, ti int) {
 	s := h.eng.slots[ti]
 	methods := []string{"all", "backward", "topk", "bottomk"}
@@ -568,6 +577,10 @@ func (h *History) iterOp(t *rapid.T, ti int) {
 	op.Btw = pick(t, []int{0, 0, 1, 1, 2, 3}, "btw")
 	if drawInt(t, 0, 2, "nest") == 0 {
 		op.In = pick(t, []int{-1, -1, 1, 2, 3}, "in")
+	}
+	if drawInt(t, 0, 3, "pull") == 0 {
+		op.Pull = drawInt(t, 1, 0x1fff, "pullsched")
+		op.T2 = drawInt(t, 0, len(h.eng.slots)-1, "pullt2")
 	}
 	h.emit(t, op)
 }
